@@ -354,11 +354,21 @@ fn drain<T>(cap: usize, mut next: impl FnMut() -> gimli::Result<Option<T>>) -> R
     for _ in 0..cap {
         match next() {
             Ok(Some(x)) => out.push(Ev::Item(x)),
-            Ok(None) => return Ok(out),
+            Ok(None) => {
+                // the end is final: the iterator must not resume behind the terminator
+                for _ in 0..2 {
+                    match next() {
+                        Ok(None) => {}
+                        Ok(Some(_)) => out.push(Ev::Error("ItemAfterEnd".into())),
+                        Err(_) => out.push(Ev::Error("ErrAfterEnd".into())),
+                    }
+                }
+                return Ok(out);
+            }
             Err(e) => out.push(Ev::Error(rerr(&e))),
         }
     }
-    Err(format!("no-end-after-{cap}-calls"))
+    Err("no-end-within-len-plus-2-calls".to_string())
 }
 
 struct Secs<'a> {
